@@ -155,14 +155,19 @@ fn concurrent(args: &Args, acc: &mut Acc, seed: u64, verbose: bool) {
     let script_seed = rng.next();
     let movable_atomic = kind == Kind::UniMoveAtomic;
     let mut bodies: Vec<Body> = Vec::new();
-    { let d = done.clone(); bodies.push(polling_consumer_body(strm, Hold::Release, clog.clone(), Arc::new(move || d.load(SeqCst) == 1))); }
-    {
+    // several threads reserve / send / cancel at once (racing for the last free slots) where reservations are independent of each other; on the movable atomic channel
+    // they are not (publication in reservation order, only the newest reservation can be cancelled): two threads holding reservations there may wait for each other by
+    // documented design, so that kind keeps one reserving thread
+    let nres: u32 = if movable_atomic { 1 } else { 1 + rng.below(3) as u32 };
+    if nres > 1 { acc.count("concurrent_runs_with_several_reserving_threads", 1) }
+    { let d = done.clone(); bodies.push(polling_consumer_body(strm, Hold::Release, clog.clone(), Arc::new(move || d.load(SeqCst) == nres))); }
+    for t in 0..nres as u64 {
         let (ch, d, sent, cancelled, probs) = (ch.clone(), done.clone(), sent.clone(), cancelled.clone(), probs.clone());
         bodies.push(Box::new(move || {
             let _g = OnExit(Some(move || { d.fetch_add(1, SeqCst); }));
-            let mut rng = Rng::new(script_seed);
+            let mut rng = Rng::new(script_seed ^ (t << 50));
             let mut open: Vec<(Resv, u64)> = Vec::new();
-            let mut next = 1u64;
+            let mut next = (t << 20) + 1;
             for _ in 0..steps {
                 match rng.below(10) {
                     0..=3 => { if let Some(r) = ch.reserve() { let id = next; next += 1; ch.fill(&r, id); open.push((r, id)) } }
@@ -184,7 +189,7 @@ fn concurrent(args: &Args, acc: &mut Acc, seed: u64, verbose: bool) {
             while !open.is_empty() { let mut tries = 0; while !ch.try_send_reserved(&open[0].0) { tries += 1; if tries > 100_000 { probs.lock().unwrap().push("an open reservation could not be sent at the end".into()); return } sched::spin() } let (_, id) = open.remove(0); sent.lock().unwrap().push(id); sched::op_done() }
         }));
     }
-    let mut rc = match args.lane { Lane::Ser => RunCfg::ser(seed, draw_strategy(&mut rng, 2, super::c01::PAUSE_SITES, 200)), Lane::Free => RunCfg::free(seed, rng.below(3) as u8) };
+    let mut rc = match args.lane { Lane::Ser => RunCfg::ser(seed, draw_strategy(&mut rng, 1 + nres as usize, super::c01::PAUSE_SITES, 200)), Lane::Free => RunCfg::free(seed, rng.below(3) as u8) };
     rc.trace = verbose && args.get("trace").is_some();
     let rep = sched::run(&rc, bodies);
     acc.account(&rep);
